@@ -3,12 +3,14 @@ package main
 import (
 	"fmt"
 	"strings"
+	"sync"
+	"time"
 
 	"github.com/Trendyol/go-dcp/config"
-	"github.com/Trendyol/go-dcp/membership"
-	"github.com/asaskevich/EventBus"
 	"github.com/Trendyol/go-dcp/helpers"
+	"github.com/Trendyol/go-dcp/membership"
 	"github.com/Trendyol/go-dcp/stream"
+	"github.com/asaskevich/EventBus"
 )
 
 func init() { props["c09"] = runC09 }
@@ -98,6 +100,71 @@ func realMemberSeq(n int, steps [][2]int) (res string) {
 	return strings.Join(out, " ")
 }
 
+// realMemberFirst: a discovery with dynamic membership whose first Get() is already waiting for the first membership
+// information when TWO informations arrive back to back (start-up of a group that is still forming). Whatever Get() returns
+// must be the range of ONE consistent (member, total) pair - the first one, which is what the waiting channel delivers -
+// and the discovery metric must show that same pair next to that range.
+func realMemberFirst(n int, a, b [2]int) string {
+	// the only way to know that Get() is already waiting is to give it time: when the answer shows the second pair (Get() started
+	// late and found the membership already informed - legal, but not the scenario) the case is repeated with a longer wait
+	wait := 100 * time.Millisecond
+	for try := 0; ; try++ {
+		res := realMemberFirstOnce(n, a, b, wait)
+		if try == 3 || a == b || !strings.Contains(res, fmt.Sprintf(" %d/%d ", b[1], b[0])) {
+			return res
+		}
+		wait *= 3
+	}
+}
+
+func realMemberFirstOnce(n int, a, b [2]int, wait time.Duration) (res string) {
+	defer func() {
+		if r := recover(); r != nil {
+			res = "panic"
+		}
+	}()
+	bus := EventBus.New()
+	cfg := &config.Dcp{}
+	cfg.Dcp.Group.Membership.Type = "dynamic"
+	d := stream.NewVBucketDiscovery(nil, cfg, n, bus)
+	type ret struct {
+		vbs []uint16
+		pan bool
+	}
+	ch := make(chan ret, 1)
+	go func() {
+		defer func() {
+			if r := recover(); r != nil {
+				ch <- ret{pan: true}
+			}
+		}()
+		ch <- ret{vbs: d.Get()}
+	}()
+	time.Sleep(wait) // Get() is blocked in GetInfo by now
+	bus.Publish(helpers.MembershipChangedBusEventName, &membership.Model{MemberNumber: a[1], TotalMembers: a[0]})
+	bus.Publish(helpers.MembershipChangedBusEventName, &membership.Model{MemberNumber: b[1], TotalMembers: b[0]})
+	bus.WaitAsync()
+	select {
+	case r := <-ch:
+		if r.pan {
+			return "panic"
+		}
+		vbs := r.vbs
+		if len(vbs) == 0 {
+			return "bad"
+		}
+		for k := 1; k < len(vbs); k++ {
+			if vbs[k] != vbs[k-1]+1 {
+				return "bad"
+			}
+		}
+		m := d.GetMetric()
+		return fmt.Sprintf("%d-%d %d/%d %d-%d", vbs[0], vbs[len(vbs)-1], m.MemberNumber, m.TotalMembers, m.VBucketRangeStart, m.VBucketRangeEnd)
+	case <-time.After(3 * time.Second):
+		return "hang"
+	}
+}
+
 func runC09(c *Ctx) {
 	e := c.E
 	one := func(n, t int) {
@@ -156,6 +223,31 @@ func runC09(c *Ctx) {
 		}
 		e.Line(fmt.Sprintf("member-seq %d %s", n, strings.Join(sb, ",")), realMemberSeq(n, steps))
 		e.EndCase(true, "member-seq")
+	}
+	// two membership informations arriving while the first Get() is waiting (run concurrently: each waits 20 ms)
+	{
+		type fc struct {
+			n    int
+			a, b [2]int
+			res  string
+		}
+		var fcs []*fc
+		for i := 0; i < c.N(60, 600); i++ {
+			n := []int{64, 128, 1024, 1 + c.R.Intn(1024)}[c.R.Intn(4)]
+			t1 := 1 + c.R.Intn(minI(n, 12))
+			t2 := 1 + c.R.Intn(minI(n, 12))
+			fcs = append(fcs, &fc{n: n, a: [2]int{t1, 1 + c.R.Intn(t1)}, b: [2]int{t2, 1 + c.R.Intn(t2)}})
+		}
+		var wg sync.WaitGroup
+		for _, f := range fcs {
+			wg.Add(1)
+			go func(f *fc) { defer wg.Done(); f.res = realMemberFirst(f.n, f.a, f.b) }(f)
+		}
+		wg.Wait()
+		for _, f := range fcs {
+			e.Line(fmt.Sprintf("member-first %d %d:%d,%d:%d", f.n, f.a[0], f.a[1], f.b[0], f.b[1]), f.res)
+			e.EndCase(f.a != f.b, "member-first")
+		}
 	}
 	c.Extra["exhaustive_chunk_upto_N"] = limit
 	c.Extra["exhaustive_member_upto_N"] = mlimit
